@@ -2,6 +2,8 @@ use crate::framework::Scenario;
 
 pub mod c11_framing;
 pub mod c15_handshake;
+pub mod c30_browse;
+pub mod c32_attributes;
 pub mod nm_family;
 pub mod sess_family;
 pub mod subs_family;
@@ -17,5 +19,7 @@ pub fn all() -> Vec<Box<dyn Scenario>> {
     for id in ["C19", "C20"] {
         v.push(Box::new(sess_family::Sess { id }));
     }
+    v.push(Box::new(c30_browse::C30));
+    v.push(Box::new(c32_attributes::C32));
     v
 }
